@@ -30,7 +30,7 @@ RULE = (
     "Hypothesis draws programs (depth<=5, <=30 nodes) over ops: check(name,size), hole-check({k}), call(kind in new-typeguard/"
     "new-beartype/old-typeguard/none/method/dataclass/context/one shared re-entered context object; exit in return/Exception/KeyboardInterrupt/custom BaseException/"
     "CancelledError/GeneratorExit/ill-typed parameter/ill-typed return) with a nested body, make-generator / make-coroutine "
-    "(driven after the creating call returned). After every node the bindings transcript is compared with a model stack. "
+    "(driven after the creating call returned; a third of the generators are advanced one step right away, inside the creating frame's caller). After every node the bindings transcript is compared with a model stack. "
     "Non-trivial = program with nesting depth>=2 containing an exceptional exit below a frame that afterwards checks a name the "
     "callee had also bound (to a different size); distinct by program text."
 )
@@ -53,7 +53,8 @@ EXCS = {
     "RuntimeError": RuntimeError,
 }
 P = Shaped[np.ndarray, "p"]
-KINDS = ["new-typeguard", "new-beartype", "old-typeguard", "none", "method", "dataclass", "context", "new-typeguard", "old-beartype", "context-shared", "context-shared"]
+KINDS = ["new-typeguard", "new-beartype", "old-typeguard", "none", "method", "dataclass", "context", "new-typeguard", "old-beartype", "context-shared", "context-shared",
+         "plain-typeguard", "plain-beartype"]  # plain-*: new-style checker, but no jaxtyping annotation in the signature
 EXITS = ["return", "return", "exc", "exc", "bad-param", "bad-return"]
 
 
@@ -96,8 +97,8 @@ class Interp:
                 raise AssertionError(op)
             self.assert_bindings(f"after {op} node #{self.nodes}")
 
-    def do_check(self, n):
-        got = obs.verdict(np.zeros((n["size"],)), Shaped[np.ndarray, n["name"]])
+    def do_check(self, n, observed=None):
+        got = observed if observed is not None else obs.verdict(np.zeros((n["size"],)), Shaped[np.ndarray, n["name"]])
         if self.stack:
             b = self.stack[-1]["b"]
             if n["name"] in b:
@@ -123,7 +124,9 @@ class Interp:
 
     def do_call(self, n):
         kind, exit_, psize, k = n["kind"], n["exit"], n["psize"], n["k"]
-        has_checker = kind not in ("none", "context", "context-shared")
+        has_checker = kind not in ("none", "context", "context-shared", "plain-typeguard", "plain-beartype")
+        if kind.startswith("plain-") and exit_ == "bad-return":
+            exit_ = "return"
         if not has_checker and exit_ in ("bad-param", "bad-return"):
             exit_ = "return"
         if kind == "dataclass" and exit_ == "bad-return":
@@ -189,6 +192,15 @@ class Interp:
                                 return x
 
                             fn = jaxtyped(typechecker=None)(raw_none)
+                        elif kind.startswith("plain-"):
+                            # only ordinary annotations: the call still gets its own context (the body may bind names)
+                            def raw_plain(x: object, k: int) -> object:
+                                body()
+                                return x
+
+                            fn = jaxtyped(typechecker=gc.checker(kind[6:]))(raw_plain)
+                            if exit_ == "bad-param":
+                                arg, k = np.zeros((psize,)), "not-an-int"
                         elif kind.startswith("new-"):
                             fn = jaxtyped(typechecker=gc.checker(kind[4:]))(raw)
                         else:
@@ -214,7 +226,7 @@ class Interp:
         elif exit_ == "bad-param":
             if not isinstance(outcome, Exception) or outcome == "returned":
                 self.fail("call-outcome", f"{where}: ill-typed parameter accepted")
-            if kind.startswith("new-") or kind in ("method", "dataclass"):
+            if kind.startswith(("new-", "plain-")) or kind in ("method", "dataclass"):
                 if not isinstance(outcome, TypeCheckError):
                     self.fail("call-outcome", f"{where}: expected TypeCheckError, got {type(outcome).__name__}")
             if entered:
@@ -243,6 +255,18 @@ class Interp:
                     yield c["size"]
 
             obj = g(np.zeros((n["psize"],)), n["k"])
+            if n.get("advance"):
+                # drive the first step right here: the generator body is ordinary code running in the DRIVER's context (the
+                # creating call has returned long ago), so its check binds/compares like a manual check at this point
+                first = n["body"][0]
+                got = next(obj)
+                self.do_check({"name": first["name"], "size": first["size"]}, observed=record[0])
+                if got != first["size"]:
+                    self.fail("generator-values", f"generator yielded {got}")
+                if record[1] != (dict(self.stack[-1]["b"]) if self.stack else {}):
+                    self.fail("generator-context", f"generator advanced inside a frame: its body saw bindings {record[1]}, the driver's frame has {self.stack[-1]['b'] if self.stack else {}}")
+                del record[:2]
+                n = dict(n, body=n["body"][1:], advanced=True)
         else:
             @jaxtyped(typechecker=gc.checker(n["checker"]))
             async def co(x: P, k: int):
@@ -309,6 +333,7 @@ def node_strategy(depth):
         "op": st.just("gen"), "kind": st.sampled_from(["generator", "coroutine"]), "checker": st.sampled_from(["typeguard", "beartype"]),
         "psize": st.sampled_from([2, 3, 4]), "k": st.sampled_from([1, 2, 3]),
         "body": st.lists(st.fixed_dictionaries({"name": st.sampled_from(["p", "a"]), "size": st.sampled_from([2, 3, 4])}), min_size=1, max_size=3),
+        "advance": st.sampled_from([True, False, False]),
     })
     if depth <= 0:
         return st.one_of(check, check, hole, gen)
